@@ -154,7 +154,15 @@ func pathTriesToEscape(relPath string) bool {
 func checkOutputsAreWithinRepository(target *model.Target) (errs []error) {
 	workspaceRoot := config.Global.WorkspaceRoot
 
-	for _, output := range target.FileOutputs() {
+	// Directory outputs are paths in the workspace just like file outputs
+	outputPaths := target.FileOutputs()
+	for _, output := range target.AllOutputs() {
+		if output.Type == "dir" {
+			outputPaths = append(outputPaths, output.Identifier)
+		}
+	}
+
+	for _, output := range outputPaths {
 		if path.IsAbs(output) {
 			errs = append(errs, fmt.Errorf(
 				"output %s for target %s is not relative",
